@@ -527,6 +527,10 @@ class Interp:
             return z_eq(a.v, b.v)
         if isinstance(a, str) and isinstance(b, str):
             return a == b
+        if hasattr(a, "sym_eq"):
+            return a.sym_eq(self, b)
+        if hasattr(b, "sym_eq"):
+            return b.sym_eq(self, a)
         if isinstance(a, Str) or isinstance(b, Str) or isinstance(a, str) or isinstance(b, str):
             if self.text is not None:
                 return self.text.str_eq(self, a, b)
